@@ -164,22 +164,108 @@ theorem geodetic_on_ellipsoid (a f φ θ : ℝ) (ha : 0 < a) (hf : f < 1)
 
 /-! ### fixed point of the latitude body -/
 
-/-- pure-ℝ core: if `lat = atan2(z + c e² sin lat, r)` with `r > 0` then `lat ∈ (−π/2, π/2)` and the
-    geodetic→cartesian formulas (in the meridian plane, unit semi-major axis) give back `(r, z)` -/
-theorem fixpoint_core (e c z r lat : ℝ) (hr : 0 < r)
-    (hfix : Complex.arg ⟨r, z + c * e * sin lat⟩ = lat) :
-    -(π / 2) < lat ∧ lat < π / 2 ∧
-    (c + (r / cos lat - c)) * cos lat = r ∧ (c * (1 - e) + (r / cos lat - c)) * sin lat = z := by
-  have hb := arg_range_of_re_pos hr (z + c * e * sin lat)
-  rw [hfix] at hb
-  have hcos : 0 < cos lat := cos_pos_of_mem_Ioo ⟨hb.1, hb.2⟩
-  have ht := Complex.tan_arg ⟨r, z + c * e * sin lat⟩
-  rw [hfix, tan_eq_sin_div_cos] at ht
-  simp only at ht
-  rw [div_eq_div_iff hcos.ne' hr.ne'] at ht
-  refine ⟨hb.1, hb.2, ?_, ?_⟩
-  · field_simp; ring
-  · field_simp; linear_combination ht
+/-- the model's altitude expression over ℝ -/
+theorem altOf_real (z r lat : ℝ) :
+    altOf z r lat = r * cos lat + z * sin lat - √(1 - ecc2 wgs84F * sin lat ^ 2) := by
+  simp only [altOf, r_sub, r_add, r_mul, r_sqrt, r_sin, r_cos, r_ofNat, e2_eq]
+  simp only [Nat.cast_one]
+  congr 3
+  ring
+
+/-- polar form of `atan2(w, r)`: `r = ρ cos`, `w = ρ sin` with `ρ = |(r, w)| > 0` (any quadrant, polar axis included) -/
+theorem arg_polar_form (r w : ℝ) (h : r ≠ 0 ∨ w ≠ 0) :
+    ∃ ρ : ℝ, 0 < ρ ∧ r = ρ * cos (Complex.arg ⟨r, w⟩) ∧ w = ρ * sin (Complex.arg ⟨r, w⟩) := by
+  have hne : (⟨r, w⟩ : ℂ) ≠ 0 := by
+    intro h0
+    have h1 := congrArg Complex.re h0
+    have h2 := congrArg Complex.im h0
+    simp only [Complex.zero_re, Complex.zero_im] at h1 h2
+    rcases h with h | h
+    · exact h h1
+    · exact h h2
+  have hpos : 0 < ‖(⟨r, w⟩ : ℂ)‖ := norm_pos_iff.2 hne
+  refine ⟨‖(⟨r, w⟩ : ℂ)‖, hpos, ?_, ?_⟩
+  · rw [Complex.cos_arg hne]; simp only; field_simp
+  · rw [Complex.sin_arg]; simp only; field_simp
+
+/-- algebra of one pass: with `r = ρ co`, `z + c₂ e s₂ = ρ s` (`s, co` = sin, cos of the new latitude),
+    `q² = 1 − e s²`, `c = 1/q` and `alt = r co + z s − q`, the WGS-84 meridian formulas give back `(r, z)` up to
+    `e (c s − c₂ s₂)` times `s co` resp. `−co²` — exactly `(r, z)` when `(c, s) = (c₂, s₂)` (fixed point) -/
+theorem residual_algebra (e ρ s co q c2 s2 : ℝ) (h1 : s ^ 2 + co ^ 2 = 1) (hq : q ^ 2 = 1 - e * s ^ 2)
+    (hq0 : q ≠ 0) :
+    (1 / q + (ρ * co * co + (ρ * s - c2 * e * s2) * s - q)) * co - ρ * co
+        = e * (1 / q * s - c2 * s2) * s * co ∧
+    (1 / q * (1 - e) + (ρ * co * co + (ρ * s - c2 * e * s2) * s - q)) * s - (ρ * s - c2 * e * s2)
+        = -(e * (1 / q * s - c2 * s2) * co ^ 2) := by
+  constructor
+  · field_simp
+    linear_combination (co * q * ρ) * h1 + (-co) * hq
+  · field_simp
+    linear_combination (s * q * ρ - e * c2 * s2 * q + s * e) * h1 + (-s) * hq
+
+/-- one pass of the body from `lat2` (new latitude `lat`, `c₂ = c(lat2)`), converted back with the
+    altitude the code forms: residuals in the meridian plane.  `(r, z + c₂ e sin lat2) ≠ 0` only. -/
+theorem step_residual_core (e c2 z r lat2 : ℝ)
+    (hne : r ≠ 0 ∨ z + c2 * e * sin lat2 ≠ 0)
+    (hW : 0 < 1 - e * sin (Complex.arg ⟨r, z + c2 * e * sin lat2⟩) ^ 2) :
+    (1 / √(1 - e * sin (Complex.arg ⟨r, z + c2 * e * sin lat2⟩) ^ 2)
+        + (r * cos (Complex.arg ⟨r, z + c2 * e * sin lat2⟩)
+            + z * sin (Complex.arg ⟨r, z + c2 * e * sin lat2⟩)
+            - √(1 - e * sin (Complex.arg ⟨r, z + c2 * e * sin lat2⟩) ^ 2)))
+        * cos (Complex.arg ⟨r, z + c2 * e * sin lat2⟩) - r
+      = e * (1 / √(1 - e * sin (Complex.arg ⟨r, z + c2 * e * sin lat2⟩) ^ 2)
+              * sin (Complex.arg ⟨r, z + c2 * e * sin lat2⟩) - c2 * sin lat2)
+          * sin (Complex.arg ⟨r, z + c2 * e * sin lat2⟩) * cos (Complex.arg ⟨r, z + c2 * e * sin lat2⟩) ∧
+    (1 / √(1 - e * sin (Complex.arg ⟨r, z + c2 * e * sin lat2⟩) ^ 2) * (1 - e)
+        + (r * cos (Complex.arg ⟨r, z + c2 * e * sin lat2⟩)
+            + z * sin (Complex.arg ⟨r, z + c2 * e * sin lat2⟩)
+            - √(1 - e * sin (Complex.arg ⟨r, z + c2 * e * sin lat2⟩) ^ 2)))
+        * sin (Complex.arg ⟨r, z + c2 * e * sin lat2⟩) - z
+      = -(e * (1 / √(1 - e * sin (Complex.arg ⟨r, z + c2 * e * sin lat2⟩) ^ 2)
+              * sin (Complex.arg ⟨r, z + c2 * e * sin lat2⟩) - c2 * sin lat2)
+          * cos (Complex.arg ⟨r, z + c2 * e * sin lat2⟩) ^ 2) := by
+  obtain ⟨ρ, -, hr, hw⟩ := arg_polar_form r (z + c2 * e * sin lat2) hne
+  generalize Complex.arg ⟨r, z + c2 * e * sin lat2⟩ = lat at *
+  have hz : z = ρ * sin lat - c2 * e * sin lat2 := by linarith
+  have hq := Real.sq_sqrt hW.le
+  have hq0 : √(1 - e * sin lat ^ 2) ≠ 0 := (Real.sqrt_pos.2 hW).ne'
+  obtain ⟨ha, hb⟩ := residual_algebra e ρ (sin lat) (cos lat) (√(1 - e * sin lat ^ 2)) c2 (sin lat2)
+    (sin_sq_add_cos_sq lat) hq hq0
+  rw [← hz, ← hr] at ha hb
+  exact ⟨ha, hb⟩
+
+/-- pure-ℝ core: if `lat = atan2(z + c e² sin lat, r)` with `c = 1/√(1 − e² sin² lat)` then the
+    geodetic→cartesian formulas (meridian plane, unit semi-major axis) with the altitude
+    `r cos lat + z sin lat − √(1 − e² sin² lat)` give back `(r, z)`; every `(r, z)`, polar axis included -/
+theorem fixpoint_core (e z r lat : ℝ) (hW : 0 < 1 - e * sin lat ^ 2)
+    (hfix : Complex.arg ⟨r, z + 1 / √(1 - e * sin lat ^ 2) * e * sin lat⟩ = lat) :
+    (1 / √(1 - e * sin lat ^ 2) + (r * cos lat + z * sin lat - √(1 - e * sin lat ^ 2))) * cos lat = r ∧
+    (1 / √(1 - e * sin lat ^ 2) * (1 - e) + (r * cos lat + z * sin lat - √(1 - e * sin lat ^ 2))) * sin lat
+      = z := by
+  set c := 1 / √(1 - e * sin lat ^ 2) with hc
+  by_cases hne : r ≠ 0 ∨ z + c * e * sin lat ≠ 0
+  · have hW' : 0 < 1 - e * sin (Complex.arg ⟨r, z + c * e * sin lat⟩) ^ 2 := by rw [hfix]; exact hW
+    obtain ⟨ha, hb⟩ := step_residual_core e c z r lat hne hW'
+    rw [hfix, ← hc] at ha hb
+    constructor
+    · have : e * (c * sin lat - c * sin lat) * sin lat * cos lat = 0 := by ring
+      linarith
+    · have : -(e * (c * sin lat - c * sin lat) * cos lat ^ 2) = 0 := by ring
+      linarith
+  · -- the origin: lat = atan2(0, 0) = 0
+    have hne' : r = 0 ∧ z + c * e * sin lat = 0 := by
+      constructor
+      · by_contra h; exact hne (Or.inl h)
+      · by_contra h; exact hne (Or.inr h)
+    obtain ⟨hr0, hw0⟩ := hne'
+    have hlat : lat = 0 := by
+      rw [← hfix, hr0, hw0]
+      exact Complex.arg_zero
+    subst hlat
+    rw [sin_zero, mul_zero, add_zero] at hw0
+    have hc1 : c = 1 := by rw [hc, sin_zero]; norm_num
+    rw [hr0, hw0, hc1, sin_zero, cos_zero]
+    norm_num
 
 /-- `cos`/`sin` of `atan2(y·k, x·k)` for `k > 0`, `(x, y) ≠ 0` -/
 theorem cos_sin_atan2_scaled {x y k : ℝ} (hk : 0 < k) (hxy : 0 < √(x ^ 2 + y ^ 2)) :
@@ -197,5 +283,26 @@ theorem cos_sin_atan2_scaled {x y k : ℝ} (hk : 0 < k) (hxy : 0 < √(x ^ 2 + y
   constructor
   · rw [Complex.cos_arg hne, hnorm]; simp only; field_simp
   · rw [Complex.sin_arg, hnorm]; simp only; field_simp
+
+/-- `(x, y) = r (cos θ, sin θ)` for `r = √(x² + y²)` and the sidereal angle `θ = gmst + wrapLon(atan2(y k, x k) − gmst)`
+    that `get_lonlatalt` reports; on the polar axis both sides are 0 -/
+theorem xy_polar (g x y : ℝ) :
+    x = √(x ^ 2 + y ^ 2) * cos (g + wrapLon (Complex.arg ⟨x * 6378.135, y * 6378.135⟩ - g)) ∧
+    y = √(x ^ 2 + y ^ 2) * sin (g + wrapLon (Complex.arg ⟨x * 6378.135, y * 6378.135⟩ - g)) := by
+  have hct : ∀ a : ℝ, cos (g + wrapLon (a - g)) = cos a := fun a => by
+    rw [cos_add, cos_wrapLon, sin_wrapLon, ← cos_add, add_sub_cancel]
+  have hst : ∀ a : ℝ, sin (g + wrapLon (a - g)) = sin a := fun a => by
+    rw [sin_add, cos_wrapLon, sin_wrapLon, ← sin_add, add_sub_cancel]
+  rw [hct, hst]
+  rcases (Real.sqrt_nonneg (x ^ 2 + y ^ 2)).eq_or_lt with h0 | hpos
+  · have hz : x ^ 2 + y ^ 2 = 0 := by
+      have := Real.sq_sqrt (by positivity : (0 : ℝ) ≤ x ^ 2 + y ^ 2)
+      rw [← h0] at this; linarith
+    have hx : x = 0 := by nlinarith [sq_nonneg x, sq_nonneg y]
+    have hy : y = 0 := by nlinarith [sq_nonneg x, sq_nonneg y]
+    rw [← h0, hx, hy]; simp
+  · obtain ⟨hcos, hsin⟩ := cos_sin_atan2_scaled (x := x) (y := y) (k := 6378.135) (by norm_num) hpos
+    rw [hcos, hsin]
+    constructor <;> field_simp
 
 end PV.C04
